@@ -328,6 +328,14 @@ func (dm *DMap) putOnCluster(e *env) error {
 		}
 	}
 
+	if e.putConfig.OnlyUpdateTTL {
+		// Expire carries no value. The entry shipped to the backup owners has to
+		// be the stored one with its new expiry, not an empty value.
+		if current, gerr := e.fragment.storage.Get(e.hkey); gerr == nil {
+			e.value = current.Value()
+		}
+	}
+
 	nt := dm.prepareEntry(e)
 	if dm.s.config.ReplicaCount > config.MinimumReplicaCount {
 		switch dm.s.config.ReplicationMode {
